@@ -39,6 +39,8 @@ type world struct {
 	script  []string // every statement executed so far (replay)
 	t1idx   []index  // indexes that exist right now
 	t2idx   []index
+	t3idx   []index
+	t3InTx  bool // t3 was filled by the open transaction
 	state   string
 	lastChain string
 	anyCell map[string]anyObs // engine-defined cells: (state, query, col) -> first observed value
@@ -77,6 +79,21 @@ func (w *world) createIndexes(late bool) {
 			w.t2idx = append(w.t2idx, ix)
 		}
 	}
+	for _, ix := range w.sc.T3 {
+		if ix.Late == late {
+			w.must(renderIndex("t3", ix))
+			w.t3idx = append(w.t3idx, ix)
+		}
+	}
+}
+
+func (w *world) fillT3() {
+	var rs []string
+	for _, t := range w.h.T3Rows {
+		rs = append(rs, fmt.Sprintf("(%s, %s, %s, %s, %s, %s)", w.c.lit("int", t[0]), w.c.lit("flt", t[1]), w.c.lit("int", t[2]),
+			w.c.lit("int", t[3]), w.c.lit("str", t[4]), w.c.lit("str", t[5])))
+	}
+	w.must("INSERT INTO t3 (id, f, g, n, s, u) VALUES " + strings.Join(rs, ", "))
 }
 
 func (r *runner) runWorld(h *history, sv int) {
@@ -152,7 +169,14 @@ func (r *runner) buildAndRun(h *history, sv int, allAuto bool) bool {
 	}
 	w.must("CREATE TABLE t1 (id INTEGER, a INTEGER, b VARCHAR[16], c BOOLEAN, PRIMARY KEY id)")
 	w.must("CREATE TABLE t2 (id INTEGER, x INTEGER, y VARCHAR[16], PRIMARY KEY id)")
+	w.must("CREATE TABLE t3 (id INTEGER, f FLOAT, g INTEGER, n INTEGER, s VARCHAR[16], u VARCHAR[16], PRIMARY KEY id)")
 	w.createIndexes(false)
+	// t3 is static; in every other world that has a transaction it is filled by that transaction (hash / streaming
+	// aggregation and index ranges over rows the open transaction wrote), otherwise up front
+	t3InTx := split < len(h.Stmts) && (h.ID+sv)%2 == 0
+	if !t3InTx {
+		w.fillT3()
+	}
 	if len(h.T2Rows) > 0 {
 		var rs []string
 		for _, t := range h.T2Rows {
@@ -177,6 +201,10 @@ func (r *runner) buildAndRun(h *history, sv int, allAuto bool) bool {
 	}
 	if split < len(h.Stmts) {
 		w.must("BEGIN TRANSACTION")
+		if t3InTx {
+			w.fillT3()
+			w.t3InTx = true
+		}
 		for i := split; i < len(h.Stmts); i++ {
 			sql := renderStmt(&h.Stmts[i], w.c)
 			if err := w.do(sql); err != nil {
@@ -250,7 +278,11 @@ func (w *world) forms(q *query) []form {
 	hasWhere := len(q.Where) > 0
 	if len(q.Join) == 0 {
 		uses := [][]string{nil, {"id"}}
-		for _, ix := range w.t1idx {
+		idx := w.t1idx
+		if q.Tbl == "t3" {
+			idx = w.t3idx
+		}
+		for _, ix := range idx {
 			uses = append(uses, ix.Cols)
 		}
 		for _, u := range uses {
